@@ -7,7 +7,7 @@
    facts of run_tests / _main) are regenerated from /repo/src/halmos on every run. *)
 From Coq Require Import ZArith List Bool QArith Lia.
 From HV Require Import Gen.GenConfig Gen.GenConfigTime Gen.GenConfigMain Spec.ConfigSpec Model.ConfigFloatModel Model.ConfigModel
-  Proofs.ConfigProofs Proofs.ConfigFloatProofs Proofs.ConfigCodecProofs Proofs.ConfigTimeoutProofs.
+  Proofs.ConfigProofs Proofs.ConfigFloatProofs Proofs.ConfigCodecProofs Proofs.ConfigTimeoutProofs Proofs.ConfigArrlenProofs.
 Import ListNotations.
 Open Scope Z_scope.
 
@@ -201,9 +201,28 @@ Theorem C18_trace_rejects :
 Proof. exact trace_rejects_bad_item. Qed.
 Print Assumptions C18_trace_rejects.
 
-(* ParseArrayLengths: the two regexes and the rendering literals are the ones the hand-written
-   recogniser of Model/ConfigModel.v was written for (finite table; the recogniser itself is
-   tied to the code by the correspondence run, there is no Coq round-trip theorem for it) *)
+(* ParseArrayLengths: every dictionary with pairwise distinct, non-empty names free of white space
+   and of the characters = , { } and with non-empty lists of non-negative sizes (any number of
+   entries, any sizes) survives unparse/parse *)
+Theorem C18_arrlen_roundtrip :
+  forall d,
+    Forall (fun kv => (fst kv <> [] /\ Forall (fun c => is_special c = false /\ is_ws c = false) (fst kv)) /\
+                      (snd kv <> [] /\ Forall (fun v => 0 <= v) (snd kv))) d ->
+    NoDup (map fst d) ->
+    arrlen_parse (arrlen_unparse d) = AOk d.
+Proof. exact arrlen_roundtrip. Qed.
+Print Assumptions C18_arrlen_roundtrip.
+
+(* ... and every dictionary parse returns is of that kind: whatever string is accepted, the value
+   it yields survives unparse/parse *)
+Theorem C18_arrlen_parse_unparse_parse :
+  forall s d, arrlen_parse s = AOk d -> arrlen_parse (arrlen_unparse d) = AOk d.
+Proof. exact arrlen_parse_unparse_parse. Qed.
+Print Assumptions C18_arrlen_parse_unparse_parse.
+
+(* ... the two regexes and the rendering literals are the ones the hand-written recogniser of
+   Model/ConfigModel.v was written for (finite table; the recogniser itself is tied to the code
+   by the correspondence run) *)
 Theorem C18_arrlen_literals_pinned :
   arrlen_check_re = [94; 40; 91; 94; 61; 44; 92; 123; 92; 125; 93; 43; 61; 40; 92; 123; 91; 92; 100; 44; 93; 43; 92; 125; 124; 92; 100; 43; 41; 40; 44; 124; 36; 41; 41; 42; 36]
   /\ arrlen_find_re = [40; 91; 94; 61; 44; 92; 123; 92; 125; 93; 43; 41; 61; 40; 63; 58; 92; 123; 40; 91; 92; 100; 44; 93; 43; 41; 92; 125; 124; 40; 92; 100; 43; 41; 41]
